@@ -68,6 +68,11 @@ inductive IpHdrs where
   | ipv6 (nextHeader : Nat) (exts : Exts)
 deriving DecidableEq, Repr
 
+/-- IP version of the header set (which enum variant it is). -/
+def IpHdrs.version : IpHdrs → Nat
+  | .ipv4 _ _ => 4
+  | .ipv6 _ _ => 6
+
 /-- `IpHeaders::set_next_headers` -/
 def IpHdrs.setNextHeaders (h : IpHdrs) (lastNextHeader : Nat) : IpHdrs × Nat :=
   match h with
